@@ -550,6 +550,22 @@ theorem InvA.opPush {db : DB} (h : InvA db) (k : Nat) (werr : Bool) : InvA (opPu
       · exact h2.ackDone _ _
       · exact h2
 
+theorem mem_noteOk {id : Nat} {who : Option Nat} {l : List Ent} {x : Ent} (h : x ∈ noteOk id who l) :
+    ∃ e0 ∈ l, x.id = e0.id ∧ x.hid = e0.hid ∧ x.req = e0.req := by
+  induction l with
+  | nil => simp [noteOk] at h
+  | cons y ys ih =>
+    unfold noteOk at h
+    split at h
+    · rcases List.mem_cons.mp h with e | e
+      · refine ⟨y, List.mem_cons_self, ?_⟩
+        rw [e]; exact ⟨rfl, rfl, rfl⟩
+      · exact ⟨x, List.mem_cons_of_mem _ e, rfl, rfl, rfl⟩
+    · rcases List.mem_cons.mp h with e | e
+      · exact ⟨y, List.mem_cons_self, by rw [e], by rw [e], by rw [e]⟩
+      · obtain ⟨e0, h0, r⟩ := ih e
+        exact ⟨e0, List.mem_cons_of_mem _ h0, r⟩
+
 theorem InvA.opReport {db : DB} (h : InvA db) (id : Nat) (who : Option Nat) (ok : Bool) : InvA (opReport db id who ok).1 := by
   unfold Slock.Ack.opReport
   split
@@ -575,12 +591,9 @@ theorem InvA.opReport {db : DB} (h : InvA db) (id : Nat) (who : Option Nat) (ok 
           · intro _ _; simp only []; omega
         refine ⟨h1.nodup, h1.hidLt, h1.heldNQ, h1.jrn, ?_⟩
         intro e' he'
-        simp only [List.mem_map] at he'
-        obtain ⟨e0, he0, rfl⟩ := he'
+        obtain ⟨e0, he0, _, e2, _⟩ := mem_noteOk he'
         have := h1.tabOk e0 he0
-        split
-        · cases who <;> exact this
-        · exact this
+        rw [e2]; exact this
       · -- the last decrement: `DoAckLock(lock, true)` on the record whose counter just reached zero
         have h1 : InvX (db.modR e.hid (fun r => { r with ack := decU8 r.ack })) e.hid := by
           apply InvX.modR (h.toX e.hid) e.hid
